@@ -725,11 +725,13 @@ func traverseAST(node *sitter.Node, sourceCode []byte, graph *CodeGraph, current
 				for j := 0; j < int(childNode.NamedChildCount()); j++ {
 					param := childNode.NamedChild(j)
 					if param.Type() == "formal_parameter" {
-						// get type of argument and add to method arguments
-						paramType := param.Child(0).Content(sourceCode)
-						paramValue := param.Child(1).Content(sourceCode)
-						methodArgumentType = append(methodArgumentType, paramType)
-						methodArgumentValue = append(methodArgumentValue, paramValue)
+						// type and name by field: a parameter may start with modifiers (final, annotations)
+						paramType, paramValue := param.ChildByFieldName("type"), param.ChildByFieldName("name")
+						if paramType == nil || paramValue == nil {
+							continue
+						}
+						methodArgumentType = append(methodArgumentType, paramType.Content(sourceCode))
+						methodArgumentValue = append(methodArgumentValue, paramValue.Content(sourceCode))
 					}
 				}
 			}
